@@ -20,7 +20,7 @@ FI = "src/fancy_layout_interpreting.rs"
 CATALOGUE = {
  # name: (file, old, new, expect [props that must report], silent [props that must stay quiet])
  "M01-absorbed-not-cleared-on-repress": (KT,
-   "  state.mapped_absorbed_keys.retain(|k2| *k2 != k);\n  state.repeating_trigger = None;",
+   "  state.mapped_absorbed_keys.retain(|(k2, _)| *k2 != k);\n  state.repeating_trigger = None;",
    "  state.repeating_trigger = None;", ["C06", "C08"], ["C01", "C05", "C07", "C09", "C19"]),
  "M02-equivalent-drop-removed-key-test": (KT,
    "if input_pressed_keys.contains(&k) && k != removed_key {", "if input_pressed_keys.contains(&k) {", [], ["C01", "C02", "C05", "C06", "C19"]),
